@@ -185,28 +185,33 @@ theorem filtersAvoid_iff (s : Strat α) (name : String) :
       ∀ d ∈ s.flowAdj, (∀ kv ∈ d.srcStrata, kv.1 ≠ name) ∧ (∀ kv ∈ d.dstStrata, kv.1 ≠ name) := by
   simp [filtersAvoid, List.all_eq_true]
 
+theorem stratEnd_some_in {s : Strat α} {c : Comp} (h : c.name ∈ s.comps) (st : String) :
+    stratEnd s st (some c) = some (c.stratify s.name st) := by simp [stratEnd, h]
+
+theorem stratEnd_some_out {s : Strat α} {c : Comp} (h : c.name ∉ s.comps) (st : String) :
+    stratEnd s st (some c) = some c := by simp [stratEnd, h]
+
 theorem endOk_stratEnd (s : Strat α) (st : String) (flt : Strata) (h : ∀ kv ∈ flt, kv.1 ≠ s.name)
     (e : Option Comp) : endOk flt (stratEnd s st e) ↔ endOk flt e := by
   cases e with
   | none => exact Iff.rfl
   | some c =>
-    unfold stratEnd
-    split
-    · show (∀ kv ∈ flt, kv ∈ dictSet c.strata s.name st) ↔ (∀ kv ∈ flt, kv ∈ c.strata)
+    by_cases hc : c.name ∈ s.comps
+    · rw [stratEnd_some_in hc]
+      show (∀ kv ∈ flt, kv ∈ dictSet c.strata s.name st) ↔ (∀ kv ∈ flt, kv ∈ c.strata)
       constructor
       · intro H kv hkv; exact (mem_dictSet_ne _ _ _ kv (h kv hkv)).1 (H kv hkv)
       · intro H kv hkv; exact (mem_dictSet_ne _ _ _ kv (h kv hkv)).2 (H kv hkv)
-    · exact Iff.rfl
+    · rw [stratEnd_some_out hc]
 
 theorem endIn_stratEnd (s s' : Strat α) (st : String) (e : Option Comp) :
     endIn s' (stratEnd s st e) ↔ endIn s' e := by
   cases e with
   | none => exact Iff.rfl
   | some c =>
-    unfold stratEnd
-    split
-    · exact Iff.rfl
-    · exact Iff.rfl
+    by_cases hc : c.name ∈ s.comps
+    · rw [stratEnd_some_in hc]; exact Iff.rfl
+    · rw [stratEnd_some_out hc]
 
 theorem winning_copyOf (s s' : Strat α) (f : Flow α) (st : String) (h : filtersAvoid s' s.name = true) :
     winning s' (copyOf f s st) = winning s' f := by
@@ -235,38 +240,49 @@ theorem extraAdj_congr {g f : Flow α} {s : Strat α} (hk : g.kind = f.kind) (hw
 
 theorem extraAdj_copyOf (s s' : Strat α) (f : Flow α) (a b : String) (h : filtersAvoid s' s.name = true) :
     extraAdj (copyOf f s a) s' b = extraAdj f s' b :=
-  extraAdj_congr rfl (winning_copyOf s s' f a h) (endIn_stratEnd s s' a f.src) (endIn_stratEnd s s' a f.dst) b
+  extraAdj_congr (g := copyOf f s a) (f := f) rfl (winning_copyOf s s' f a h) (endIn_stratEnd s s' a f.src) (endIn_stratEnd s s' a f.dst) b
+
+theorem mem_absShare {f : Flow α} {s : Strat α} {x : Adj α} (h : x ∈ absShare f s) : x = share s.strata.length := by
+  unfold absShare at h
+  split at h
+  · exact List.mem_singleton.1 h
+  · cases h
+
+theorem mem_autoAdj {f : Flow α} {s : Strat α} {x : Adj α} (h : x ∈ autoAdj f s) : x = share s.strata.length := by
+  unfold autoAdj at h
+  split at h
+  · exact List.mem_singleton.1 h
+  · split at h
+    · exact List.mem_singleton.1 h
+    · cases h
+
+theorem mem_userAdj {a : List (String × Option (Adj α))} {st : String} {x : Adj α} (h : x ∈ userAdj a st) :
+    (st, some x) ∈ a := by
+  unfold userAdj at h
+  split at h
+  · rename_i adj hl
+    rw [List.mem_singleton] at h
+    subst h
+    exact Structure.mem_of_alookup hl
+  · cases h
 
 theorem extraAdj_declared (f : Flow α) (s : Strat α) (st : String) :
     ∀ x ∈ extraAdj f s st, DeclaredAdj s x := by
   intro x hx
-  unfold extraAdj at hx
-  split at hx
-  · cases hx
-  · rw [List.mem_append] at hx
-    rcases hx with hx | hx
-    · cases hw : winning s f with
-      | none =>
-        rw [hw] at hx
-        unfold autoAdj at hx
-        split at hx
-        · exact Or.inl (List.mem_singleton.1 hx)
-        · split at hx
-          · exact Or.inl (List.mem_singleton.1 hx)
-          · cases hx
-      | some a =>
-        rw [hw] at hx
-        obtain ⟨l1, d, l2, e, -, rfl, -⟩ := (Structure.winning_eq_some_iff s f a).1 hw
-        unfold userAdj at hx
-        split at hx
-        · rename_i adj hl
-          rw [List.mem_singleton] at hx
-          subst hx
-          exact Or.inr ⟨d, by rw [e]; simp, st, Structure.mem_of_alookup hl⟩
-        · cases hx
-    · split at hx
-      · exact Or.inl (List.mem_singleton.1 hx)
-      · cases hx
+  by_cases hb : birthIntoAge f s
+  · rw [Structure.extraAdj_birth_age hb] at hx; cases hx
+  · cases hw : winning s f with
+    | none =>
+      rw [Structure.extraAdj_auto hb hw, List.mem_append] at hx
+      rcases hx with hx | hx
+      · exact Or.inl (mem_autoAdj hx)
+      · exact Or.inl (mem_absShare hx)
+    | some a =>
+      rw [Structure.extraAdj_user hb hw, List.mem_append] at hx
+      rcases hx with hx | hx
+      · obtain ⟨l1, d, l2, e, -, rfl, -⟩ := (Structure.winning_eq_some_iff s f a).1 hw
+        exact Or.inr ⟨d, by rw [e]; simp, st, mem_userAdj hx⟩
+      · exact Or.inl (mem_absShare hx)
 
 theorem endSem_stratEnd_comm (s1 s2 : Strat α) (hne : s1.name ≠ s2.name) (a b : String) (e : Option Comp) :
     endSem (stratEnd s2 b (stratEnd s1 a e)) = endSem (stratEnd s1 a (stratEnd s2 b e)) := by
@@ -281,5 +297,665 @@ theorem endSem_stratEnd_comm (s1 s2 : Strat α) (hne : s1.name ≠ s2.name) (a b
     · simp [stratEnd, h1, h2]
 
 end perFlow
+
+section corr
+variable {α : Type} {P1 P2 : Adj α → Prop}
+
+theorem FlowCorr.rfl' (g : Flow α) : FlowCorr P1 P2 g g :=
+  ⟨rfl, rfl, rfl, rfl, rfl, g.adjs, [], [], by simp, by simp, by simp, by simp⟩
+
+theorem FlowsCorr.rfl' (l : List (Flow α)) : FlowsCorr P1 P2 l l := by
+  refine ⟨l.map (fun g => (g, g)), by simp [Function.comp_def], by simp [Function.comp_def], ?_⟩
+  intro p hp
+  obtain ⟨g, -, rfl⟩ := List.mem_map.1 hp
+  exact FlowCorr.rfl' g
+
+theorem FlowsCorr.of_eq {l l' : List (Flow α)} (h : l = l') : FlowsCorr P1 P2 l l' := by
+  subst h; exact FlowsCorr.rfl' l
+
+theorem FlowsCorr.append {a a' b b' : List (Flow α)} (ha : FlowsCorr P1 P2 a a') (hb : FlowsCorr P1 P2 b b') :
+    FlowsCorr P1 P2 (a ++ b) (a' ++ b') := by
+  obtain ⟨pa, ha1, ha2, ha3⟩ := ha
+  obtain ⟨pb, hb1, hb2, hb3⟩ := hb
+  refine ⟨pa ++ pb, by rw [List.map_append, ha1, hb1], by rw [List.map_append]; exact ha2.append hb2, ?_⟩
+  intro p hp
+  rcases List.mem_append.1 hp with hp | hp
+  · exact ha3 p hp
+  · exact hb3 p hp
+
+theorem FlowsCorr.flatMap {β : Type} (L : List β) (F G : β → List (Flow α))
+    (h : ∀ x ∈ L, FlowsCorr P1 P2 (F x) (G x)) : FlowsCorr P1 P2 (L.flatMap F) (L.flatMap G) := by
+  induction L with
+  | nil => exact FlowsCorr.rfl' []
+  | cons x L ih =>
+    rw [List.flatMap_cons, List.flatMap_cons]
+    exact FlowsCorr.append (h x List.mem_cons_self) (ih (fun y hy => h y (List.mem_cons_of_mem _ hy)))
+
+/-- weaken the provenance predicates -/
+theorem FlowsCorr.mono {Q1 Q2 : Adj α → Prop} (h1 : ∀ x, P1 x → Q1 x) (h2 : ∀ x, P2 x → Q2 x)
+    {l l' : List (Flow α)} (h : FlowsCorr P1 P2 l l') : FlowsCorr Q1 Q2 l l' := by
+  obtain ⟨pairs, e1, e2, e3⟩ := h
+  refine ⟨pairs, e1, e2, fun p hp => ?_⟩
+  obtain ⟨k, n, pr, sr, ds, base, x1, x2, a1, a2, q1, q2⟩ := e3 p hp
+  exact ⟨k, n, pr, sr, ds, base, x1, x2, a1, a2, fun x hx => h1 x (q1 x hx), fun x hx => h2 x (q2 x hx)⟩
+
+end corr
+
+section block
+variable {α : Type} [One α] [Div α] [NatCast α]
+
+theorem not_birthIntoAge {f : Flow α} {s : Strat α} (hk : s.kind ≠ .age) : ¬ birthIntoAge f s :=
+  fun h => hk h.2
+
+theorem copies_touched' {f : Flow α} {s : Strat α} (hk : s.kind ≠ .age) (h : endIn s f.src ∨ endIn s f.dst) :
+    copies f s = s.strata.map (copyOf f s) := by
+  rw [Structure.copies_touched h, Structure.copyStrata_other (not_birthIntoAge hk)]
+
+/-- whether a copy is touched by ANOTHER stratification is decided by the parent -/
+theorem touched_copies {f g : Flow α} {s s' : Strat α} (hg : g ∈ copies f s) :
+    (endIn s' g.src ∨ endIn s' g.dst) ↔ (endIn s' f.src ∨ endIn s' f.dst) := by
+  rcases Structure.mem_copies hg with ⟨rfl, _⟩ | ⟨st, _, rfl⟩
+  · exact Iff.rfl
+  · show (endIn s' (stratEnd s st f.src) ∨ endIn s' (stratEnd s st f.dst)) ↔ _
+    rw [endIn_stratEnd, endIn_stratEnd]
+
+theorem flatMap_copies_untouched {f : Flow α} {s s' : Strat α} (h : ¬ (endIn s' f.src ∨ endIn s' f.dst)) :
+    (copies f s).flatMap (fun g => copies g s') = copies f s := by
+  rw [Structure.flatMap_congr' (g := fun g => [g])
+    (fun g hg => Structure.copies_untouched (fun hh => h ((touched_copies hg).1 hh)))]
+  exact List.flatMap_singleton' _
+
+/-- **one parent flow.**  The copies of the copies in the two orders correspond. -/
+theorem block_corr (f : Flow α) (s1 s2 : Strat α) (hne : s1.name ≠ s2.name) (hk1 : s1.kind ≠ .age)
+    (hk2 : s2.kind ≠ .age) (hf1 : filtersAvoid s1 s2.name = true) (hf2 : filtersAvoid s2 s1.name = true) :
+    FlowsCorr (DeclaredAdj s1) (DeclaredAdj s2)
+      ((copies f s1).flatMap (fun g => copies g s2)) ((copies f s2).flatMap (fun g => copies g s1)) := by
+  by_cases h2 : endIn s2 f.src ∨ endIn s2 f.dst
+  · by_cases h1 : endIn s1 f.src ∨ endIn s1 f.dst
+    · -- both stratifications touch the flow
+      have e12 : (copies f s1).flatMap (fun g => copies g s2)
+          = s1.strata.flatMap (fun a => s2.strata.map (fun b => copyOf (copyOf f s1 a) s2 b)) := by
+        rw [copies_touched' hk1 h1, List.flatMap_map]
+        refine Structure.flatMap_congr' (fun a _ => ?_)
+        exact copies_touched' hk2 ((touched_copies (s := s1) (f := f)
+          (by rw [copies_touched' hk1 h1]; exact List.mem_map_of_mem ‹a ∈ s1.strata›)).2 h2)
+      have e21 : (copies f s2).flatMap (fun g => copies g s1)
+          = s2.strata.flatMap (fun b => s1.strata.map (fun a => copyOf (copyOf f s2 b) s1 a)) := by
+        rw [copies_touched' hk2 h2, List.flatMap_map]
+        refine Structure.flatMap_congr' (fun b _ => ?_)
+        exact copies_touched' hk1 ((touched_copies (s := s2) (f := f)
+          (by rw [copies_touched' hk2 h2]; exact List.mem_map_of_mem ‹b ∈ s2.strata›)).2 h1)
+      rw [e12, e21]
+      refine ⟨s1.strata.flatMap (fun a => s2.strata.map (fun b =>
+        (copyOf (copyOf f s1 a) s2 b, copyOf (copyOf f s2 b) s1 a))), ?_, ?_, ?_⟩
+      · rw [List.map_flatMap]
+        simp only [List.map_map, Function.comp_def]
+      · rw [List.map_flatMap]
+        simp only [List.map_map, Function.comp_def]
+        exact Invariance.flatMap_map_swap_perm (fun a b => copyOf (copyOf f s2 b) s1 a) s1.strata s2.strata
+      · intro p hp
+        obtain ⟨a, -, hp⟩ := List.mem_flatMap.1 hp
+        obtain ⟨b, -, rfl⟩ := List.mem_map.1 hp
+        refine ⟨rfl, rfl, rfl, endSem_stratEnd_comm s1 s2 hne a b f.src, endSem_stratEnd_comm s1 s2 hne a b f.dst,
+          f.adjs, extraAdj f s1 a, extraAdj f s2 b, ?_, ?_, extraAdj_declared f s1 a, extraAdj_declared f s2 b⟩
+        · show (f.adjs ++ extraAdj f s1 a) ++ extraAdj (copyOf f s1 a) s2 b = _
+          rw [extraAdj_copyOf s1 s2 f a b hf2]
+        · show (f.adjs ++ extraAdj f s2 b) ++ extraAdj (copyOf f s2 b) s1 a = _
+          rw [extraAdj_copyOf s2 s1 f b a hf1]
+    · -- only `s2` touches it
+      rw [Structure.copies_untouched h1, List.flatMap_cons, List.flatMap_nil, List.append_nil,
+        flatMap_copies_untouched h1]
+      exact FlowsCorr.rfl' _
+  · -- `s2` does not touch it
+    rw [Structure.copies_untouched h2, List.flatMap_cons, List.flatMap_nil, List.append_nil,
+      flatMap_copies_untouched h2]
+    exact FlowsCorr.rfl' _
+
+/-- **all flows.**  The flow lists of the two doubly stratified models correspond. -/
+theorem flows_corr (fl : List (Flow α)) (s1 s2 : Strat α) (hne : s1.name ≠ s2.name) (hk1 : s1.kind ≠ .age)
+    (hk2 : s2.kind ≠ .age) (hf1 : filtersAvoid s1 s2.name = true) (hf2 : filtersAvoid s2 s1.name = true) :
+    FlowsCorr (DeclaredAdj s1) (DeclaredAdj s2)
+      ((fl.flatMap (fun f => copies f s1)).flatMap (fun g => copies g s2))
+      ((fl.flatMap (fun f => copies f s2)).flatMap (fun g => copies g s1)) := by
+  rw [List.flatMap_assoc, List.flatMap_assoc]
+  exact FlowsCorr.flatMap fl _ _ (fun f _ => block_corr f s1 s2 hne hk1 hk2 hf1 hf2)
+
+end block
+
+/-! ## C. realised weights of corresponding flows -/
+
+section weights
+variable {α : Type} [CommSemiring α] [Sub α] [Div α] [LT α] [DecidableLT α]
+
+/-- product of optional values -/
+def omul (x y : Option α) : Option α :=
+  match x, y with
+  | some x, some y => some (x * y)
+  | _, _ => none
+
+theorem omul_right_comm (z u v : Option α) : omul (omul z u) v = omul (omul z v) u := by
+  cases z <;> cases u <;> cases v <;> simp [omul, mul_right_comm]
+
+/-- one step of `Spec.weightFold` -/
+def wstep (env : Env α) (acc : Option α) (a : Adj α) : Option α :=
+  match a with
+  | .mul e => (match acc, e.eval env with
+      | some x, some y => some (x * y)
+      | _, _ => none)
+  | .ovr e => e.eval env
+
+theorem weightFold_eq (f : Flow α) (env : Env α) : weightFold f env = f.adjs.foldl (wstep env) (f.param.eval env) := rfl
+
+theorem wstep_comm (env : Env α) (a b : Adj α) (ha : isMulAdj a = true) (hb : isMulAdj b = true) (z : Option α) :
+    wstep env (wstep env z a) b = wstep env (wstep env z b) a := by
+  cases a with
+  | ovr e => cases ha
+  | mul e =>
+    cases b with
+    | ovr e' => cases hb
+    | mul e' =>
+      exact omul_right_comm z _ _
+
+theorem foldl_wstep_swap (env : Env α) (x : Option α) (a a' : List (Adj α))
+    (h : AdjSwap (fun y => isMulAdj y = true) (fun y => isMulAdj y = true) a a') :
+    a.foldl (wstep env) x = a'.foldl (wstep env) x := by
+  obtain ⟨base, e1, e2, rfl, rfl, h1, h2⟩ := h
+  rw [List.append_assoc, List.append_assoc, List.foldl_append, List.foldl_append (l := base)]
+  refine List.Perm.foldl_eq' List.perm_append_comm ?_ _
+  intro p hp q hq z
+  have hm : ∀ y ∈ e1 ++ e2, isMulAdj y = true := by
+    intro y hy
+    rcases List.mem_append.1 hy with hy | hy
+    · exact h1 y hy
+    · exact h2 y hy
+  exact wstep_comm env p q (hm p hp) (hm q hq) z
+
+/-- corresponding flows whose swapped blocks are `Multiply`-only have the same realised weight -/
+theorem weight_of_flowCorr {g g' : Flow α}
+    (h : FlowCorr (fun y => isMulAdj y = true) (fun y => isMulAdj y = true) g g') (env : Env α) :
+    (Run.realised g).eval env = (Run.realised g').eval env := by
+  rw [realised_eval_eq_weightFold, realised_eval_eq_weightFold, weightFold_eq, weightFold_eq, h.param]
+  exact foldl_wstep_swap env _ _ _ h.adjs
+
+end weights
+
+section mulOnly
+variable {α : Type} [One α] [Div α] [NatCast α]
+
+theorem declared_isMul {s : Strat α} (h : mulOnly s = true) (x : Adj α) (hx : DeclaredAdj s x) :
+    isMulAdj x = true := by
+  rcases hx with rfl | ⟨d, hd, st, hst⟩
+  · rfl
+  · unfold mulOnly at h
+    have := List.all_eq_true.1 (List.all_eq_true.1 h d hd) (st, some x) hst
+    exact this
+
+end mulOnly
+
+/-! ## D. mixing categories and Kronecker factors -/
+
+section cats
+
+theorem alookup_dictSet_comm (mc : Strata) (k1 a k2 b : String) (hne : k1 ≠ k2) :
+    alookup (dictSet (dictSet mc k1 a) k2 b) = alookup (dictSet (dictSet mc k2 b) k1 a) :=
+  congrArg Prod.snd (Invariance.compSem_stratify_comm ⟨"", mc⟩ k1 a k2 b hne)
+
+/-- refining the mixing categories by two stratifications in either order gives the same categories
+up to a permutation and the insertion order of the dictionaries -/
+theorem catsStep_comm (cats : List Strata) (n1 n2 : String) (l1 l2 : List String) (hne : n1 ≠ n2) :
+    ((FOI.catsStep (FOI.catsStep cats n1 l1) n2 l2).map alookup).Perm
+      ((FOI.catsStep (FOI.catsStep cats n2 l2) n1 l1).map alookup) := by
+  unfold FOI.catsStep
+  rw [List.flatMap_assoc, List.flatMap_assoc, List.map_flatMap, List.map_flatMap]
+  apply List.Perm.flatMap_left
+  intro mc _
+  simp only [List.flatMap_map, List.map_flatMap, List.map_map, Function.comp_def]
+  refine (Invariance.flatMap_map_swap_perm (fun a b => alookup (dictSet (dictSet mc n1 a) n2 b)) l1 l2).trans ?_
+  apply List.Perm.of_eq
+  congr 1
+  funext b
+  apply List.map_congr_left
+  intro a _
+  exact alookup_dictSet_comm mc n1 a n2 b hne
+
+/-- entry-wise form, at the row-major indices used by the Kronecker product -/
+theorem catsStep_swap_entry (cats : List Strata) (n1 n2 : String) (l1 l2 : List String) (hne : n1 ≠ n2)
+    (i k l : Nat) (hi : i < cats.length) (hk : k < l1.length) (hl : l < l2.length) :
+    (FOI.catsStep (FOI.catsStep cats n1 l1) n2 l2).getD ((i * l1.length + k) * l2.length + l) []
+      = dictSet (dictSet (cats.getD i []) n1 (l1.getD k "")) n2 (l2.getD l "") ∧
+    (FOI.catsStep (FOI.catsStep cats n2 l2) n1 l1).getD ((i * l2.length + l) * l1.length + k) []
+      = dictSet (dictSet (cats.getD i []) n2 (l2.getD l "")) n1 (l1.getD k "") ∧
+    alookup ((FOI.catsStep (FOI.catsStep cats n1 l1) n2 l2).getD ((i * l1.length + k) * l2.length + l) [])
+      = alookup ((FOI.catsStep (FOI.catsStep cats n2 l2) n1 l1).getD ((i * l2.length + l) * l1.length + k) []) := by
+  have e1 : (FOI.catsStep (FOI.catsStep cats n1 l1) n2 l2).getD ((i * l1.length + k) * l2.length + l) []
+      = dictSet (dictSet (cats.getD i []) n1 (l1.getD k "")) n2 (l2.getD l "") := by
+    rw [FOI.getD_catsStep _ _ _ _ _ (by rw [FOI.length_catsStep]; exact FOI.mul_add_lt hi hk) hl,
+      FOI.getD_catsStep _ _ _ _ _ hi hk]
+  have e2 : (FOI.catsStep (FOI.catsStep cats n2 l2) n1 l1).getD ((i * l2.length + l) * l1.length + k) []
+      = dictSet (dictSet (cats.getD i []) n2 (l2.getD l "")) n1 (l1.getD k "") := by
+    rw [FOI.getD_catsStep _ _ _ _ _ (by rw [FOI.length_catsStep]; exact FOI.mul_add_lt hi hl) hk,
+      FOI.getD_catsStep _ _ _ _ _ hi hl]
+  exact ⟨e1, e2, by rw [e1, e2]; exact alookup_dictSet_comm _ _ _ _ _ hne⟩
+
+end cats
+
+section kronSwap
+variable {α : Type} [CommSemigroup α] [Zero α]
+
+/-- swapping the last two Kronecker factors permutes rows and columns by
+`((i,k),l) ↦ ((i,l),k)` (row-major indices) -/
+theorem kron3_swap (P A B : Matrix α) (n p q : Nat) (hP : IsShape P n n) (hA : IsShape A p p) (hB : IsShape B q q)
+    (i j k k' l l' : Nat) (hi : i < n) (hj : j < n) (hk : k < p) (hk' : k' < p) (hl : l < q) (hl' : l' < q) :
+    mget (kron (kron P A) B) ((i * p + k) * q + l) ((j * p + k') * q + l')
+      = mget (kron (kron P B) A) ((i * q + l) * p + k) ((j * q + l') * p + k') := by
+  rw [FOI.mget_kron_shape _ _ _ _ _ _ (FOI.isShape_kron _ _ _ _ _ _ hP hA) hB _ _ _ _
+      (FOI.mul_add_lt hi hk) hl (FOI.mul_add_lt hj hk') hl',
+    FOI.mget_kron_shape _ _ _ _ _ _ hP hA _ _ _ _ hi hk hj hk',
+    FOI.mget_kron_shape _ _ _ _ _ _ (FOI.isShape_kron _ _ _ _ _ _ hP hB) hA _ _ _ _
+      (FOI.mul_add_lt hi hl) hk (FOI.mul_add_lt hj hl') hk',
+    FOI.mget_kron_shape _ _ _ _ _ _ hP hB _ _ _ _ hi hl hj hl']
+  exact mul_right_comm _ _ _
+
+theorem kron2_swap (A B : Matrix α) (p q : Nat) (hA : IsShape A p p) (hB : IsShape B q q)
+    (k k' l l' : Nat) (hk : k < p) (hk' : k' < p) (hl : l < q) (hl' : l' < q) :
+    mget (kron A B) (k * q + l) (k' * q + l') = mget (kron B A) (l * p + k) (l' * p + k') := by
+  rw [FOI.mget_kron_shape _ _ _ _ _ _ hA hB _ _ _ _ hk hl hk' hl',
+    FOI.mget_kron_shape _ _ _ _ _ _ hB hA _ _ _ _ hl hk hl' hk']
+  exact mul_comm _ _
+
+end kronSwap
+
+section kronAll
+variable {α : Type} [CommSemiring α]
+
+theorem kronAll_snoc2 (p0 : Matrix α) (rest : List (Matrix α)) (A B : Matrix α) :
+    kronAll (p0 :: rest ++ [A, B]) = kron (kron (kronAll (p0 :: rest)) A) B := by
+  simp [kronAll, List.foldl_append]
+
+/-- the product `Run.mixingMatrix` forms from `pre ++ [A, B]` is the one it forms from
+`pre ++ [B, A]` with rows and columns permuted.  `n` is the size of the product of `pre`
+(`n = 1` when `pre` is empty). -/
+theorem kronAll_swap (pre : List (Matrix α)) (A B : Matrix α) (n p q : Nat)
+    (hn : IsShape (kronAll pre) n n) (hA : IsShape A p p) (hB : IsShape B q q)
+    (i j k k' l l' : Nat) (hi : i < n) (hj : j < n) (hk : k < p) (hk' : k' < p) (hl : l < q) (hl' : l' < q) :
+    mget (kronAll (pre ++ [A, B])) ((i * p + k) * q + l) ((j * p + k') * q + l')
+      = mget (kronAll (pre ++ [B, A])) ((i * q + l) * p + k) ((j * q + l') * p + k') := by
+  cases pre with
+  | nil =>
+    have h1 : n = 1 := hn.1.symm
+    subst h1
+    have hi0 : i = 0 := by omega
+    have hj0 : j = 0 := by omega
+    subst hi0 hj0
+    simp only [List.nil_append, kronAll, List.foldl_cons, List.foldl_nil, Nat.zero_mul, Nat.zero_add]
+    exact kron2_swap A B p q hA hB k k' l l' hk hk' hl hl'
+  | cons p0 rest =>
+    rw [kronAll_snoc2, kronAll_snoc2]
+    exact kron3_swap _ A B n p q hn hA hB i j k k' l l' hi hj hk hk' hl hl'
+
+end kronAll
+
+section mixingMatrix
+variable {α : Type} [Zero α] [One α] [Add α] [Sub α] [Mul α] [Div α] [LT α] [DecidableLT α]
+
+theorem mixingMatrix_eq_kronAll (m : Model α) (env : Env α) :
+    Run.mixingMatrix m env = (m.mixingMats.mapM (Run.evalMatrix env)).map kronAll := by
+  unfold Run.mixingMatrix
+  cases m.mixingMats.mapM (Run.evalMatrix env) with
+  | none => rfl
+  | some mats => cases mats <;> rfl
+
+theorem mapM_append_some {β γ : Type} (F : β → Option γ) (l1 l2 : List β) (o1 o2 : List γ)
+    (h1 : l1.mapM F = some o1) (h2 : l2.mapM F = some o2) : (l1 ++ l2).mapM F = some (o1 ++ o2) := by
+  rw [List.mapM_append, h1, h2]; rfl
+
+end mixingMatrix
+
+/-- an accepted call, named: used to state non-vacuity examples without evaluating a whole `Model` by `rfl` -/
+theorem ok_of_isSome {β : Type} (r : Res β) (d : β) (h : r.toOption.isSome = true) :
+    r = .ok (match r with | .ok x => x | .error _ => d) := by
+  cases r with
+  | ok x => rfl
+  | error e => cases h
+
+/-! ## E. assembling the two orders -/
+
+section assemble
+variable {α : Type} [One α] [Div α] [NatCast α]
+
+/-- an accepted strata filter only mentions stratifications already applied to the model -/
+theorem strataExist_keys (m : Model α) (flt : Strata) (h : strataExist m flt = .ok ()) :
+    ∀ kv ∈ flt, m.strats.any (fun t => t.name == kv.1) = true := by
+  induction flt with
+  | nil => intro kv hkv; cases hkv
+  | cons a flt ih =>
+    unfold strataExist at h ih
+    rw [List.forM_eq_forM, List.forM_cons] at h
+    rw [List.forM_eq_forM] at ih
+    obtain ⟨u, hu, h⟩ := (bind_ok_iff _ _ _).1 h
+    intro kv hkv
+    rcases List.mem_cons.1 hkv with rfl | hkv
+    · cases hf : m.strats.find? (fun s => s.name == kv.1) with
+      | none => rw [hf] at hu; cases hu
+      | some t =>
+        have := List.find?_some hf
+        exact List.any_eq_true.2 ⟨t, List.mem_of_find?_eq_some hf, this⟩
+    · exact ih h kv hkv
+
+/-- hypothesis (b) of the commutation theorem is FORCED by both orders being accepted: a filter of
+`s'` that mentions `s` is rejected when `s'` is applied before `s` -/
+theorem filtersAvoid_of_ok {m : Model α} {s s' : Strat α}
+    (hfresh : m.strats.any (fun t => t.name == s.name) = false)
+    (hex : ∀ d ∈ s'.flowAdj, strataExist m d.srcStrata = .ok () ∧ strataExist m d.dstStrata = .ok ()) :
+    filtersAvoid s' s.name = true := by
+  rw [filtersAvoid_iff]
+  intro d hd
+  have key : ∀ flt, strataExist m flt = .ok () → ∀ kv ∈ flt, kv.1 ≠ s.name := by
+    intro flt hflt kv hkv e
+    have := strataExist_keys m flt hflt kv hkv
+    rw [e, hfresh] at this
+    cases this
+  exact ⟨key _ (hex d hd).1, key _ (hex d hd).2⟩
+
+/-- both orders accepted: the two models, explicitly, and the facts the validations give -/
+theorem both_orders {m m12 m21 : Model α} {s1 s2 : Strat α} (hk1 : s1.kind ≠ .age) (hk2 : s2.kind ≠ .age)
+    (hshape : ShapeLite m.flows)
+    (h12 : (stratifyWith m s1 >>= fun ma => stratifyWith ma s2) = .ok m12)
+    (h21 : (stratifyWith m s2 >>= fun mb => stratifyWith mb s1) = .ok m21) :
+    m12 = stratModel (stratModel m s1) s2 ∧ m21 = stratModel (stratModel m s2) s1 ∧
+    filtersAvoid s1 s2.name = true ∧ filtersAvoid s2 s1.name = true ∧
+    ¬ (s1.isStrain = true ∧ s2.isStrain = true) := by
+  obtain ⟨ma, ha, hab⟩ := (bind_ok_iff _ _ _).1 h12
+  obtain ⟨mb, hb, hba⟩ := (bind_ok_iff _ _ _).1 h21
+  obtain ⟨rfl, hfresh1, hex1, -⟩ := stratifyWith_ok_eq hk1 hshape ha
+  obtain ⟨rfl, hfresh2, hex2, -⟩ := stratifyWith_ok_eq hk2 hshape hb
+  obtain ⟨rfl, -, -, hstr2⟩ := stratifyWith_ok_eq hk2 (shapeLite_copies hshape s1) hab
+  obtain ⟨rfl, -, -, -⟩ := stratifyWith_ok_eq hk1 (shapeLite_copies hshape s2) hba
+  refine ⟨rfl, rfl, filtersAvoid_of_ok hfresh2 hex1, filtersAvoid_of_ok hfresh1 hex2, ?_⟩
+  rintro ⟨hs1, hs2⟩
+  have := hstr2 hs2
+  simp [stratModel, hs1] at this
+
+/-- the two explicit models are the same up to the stated reorderings -/
+theorem stratCommutes_models (m : Model α) (s1 s2 : Strat α) (hne : s1.name ≠ s2.name)
+    (hk1 : s1.kind ≠ .age) (hk2 : s2.kind ≠ .age)
+    (hf1 : filtersAvoid s1 s2.name = true) (hf2 : filtersAvoid s2 s1.name = true)
+    (hstrain : ¬ (s1.isStrain = true ∧ s2.isStrain = true)) :
+    StratCommutes m s1 s2 (stratModel (stratModel m s1) s2) (stratModel (stratModel m s2) s1) := by
+  refine ⟨?_, Invariance.stratifyComps_comm m.comps s1 s2 hne, flows_corr m.flows s1 s2 hne hk1 hk2 hf1 hf2,
+    ⟨by simp [stratModel], by simp [stratModel]⟩, ⟨by simp [stratModel, preModel], by simp [stratModel, preModel]⟩,
+    ⟨by simp [stratModel, preModel], by simp [stratModel, preModel]⟩, ?_⟩
+  · cases h1 : s1.isStrain <;> cases h2 : s2.isStrain
+    · simp [stratModel, preModel, h1, h2]
+    · simp [stratModel, preModel, h1, h2]
+    · simp [stratModel, preModel, h1, h2]
+    · exact absurd ⟨h1, h2⟩ hstrain
+  · show ((stratModel (stratModel m s1) s2).mixingCats.map alookup).Perm
+      ((stratModel (stratModel m s2) s1).mixingCats.map alookup)
+    cases hm1 : s1.mixing <;> cases hm2 : s2.mixing
+    · simp [stratModel, preModel, hm1, hm2]
+    · simp [stratModel, preModel, hm1, hm2]
+    · simp [stratModel, preModel, hm1, hm2]
+    · simp only [stratModel, preModel, hm1, hm2]
+      exact catsStep_comm m.mixingCats s1.name s2.name s1.strata s2.strata hne
+
+end assemble
+
+/-! ## F. the rate laws of two corresponding models (part of (4)) -/
+
+section ratesCorr
+variable {α : Type} [Field α]
+open Summer.Run
+
+/-- the weaker correspondence the rate laws need: same class, ends equal as (name, strata lookup) -/
+def EndsCorr (g g' : Flow α) : Prop :=
+  g.kind = g'.kind ∧ endSem g.src = endSem g'.src ∧ endSem g.dst = endSem g'.dst
+
+theorem EndsCorr.of_flowCorr {P1 P2 : Adj α → Prop} {g g' : Flow α} (h : FlowCorr P1 P2 g g') : EndsCorr g g' :=
+  ⟨h.kind, h.src, h.dst⟩
+
+theorem semState_getD_compIdx (pop : String × (String → Option String) → α) (comps : List Comp) (c : Comp)
+    (i : Nat) (h : compIdx comps c = some i) : (semState pop comps).getD i 0 = pop (compSem c) := by
+  obtain ⟨hi, hc⟩ := Invariance.compIdx_getElem comps c i h
+  unfold semState
+  rw [getD_eq_getElem _ _ _ (by simpa using hi)]
+  simp [hc]
+
+theorem sumL_semState (pop : String × (String → Option String) → α) (cs cs' : List Comp)
+    (h : (cs.map compSem).Perm (cs'.map compSem)) : sumL (semState pop cs) = sumL (semState pop cs') := by
+  have e : ∀ l : List Comp, semState pop l = (l.map compSem).map pop := by
+    intro l; simp [semState, Function.comp_def]
+  rw [e, e]
+  exact Invariance.sumL_perm (h.map pop)
+
+/-- the source population of corresponding flows is the same -/
+theorem srcPop_corr {m m' : Model α} {b b' : Backend} (hb : BackendFor m b) (hb' : BackendFor m' b')
+    (pop : String × (String → Option String) → α) {g g' : Flow α} (hg : g ∈ m.flows) (hg' : g' ∈ m'.flows)
+    (hc : EndsCorr g g') (hsome : g.src.isSome = true) :
+    (semState pop m.comps).getD ((srcIx m g).getD 0) 0 = (semState pop m'.comps).getD ((srcIx m' g').getD 0) 0 := by
+  have hsome' : g'.src.isSome = true := by
+    have := hc.2.1
+    cases hs : g.src with
+    | none => rw [hs] at hsome; cases hsome
+    | some c =>
+      cases hs' : g'.src with
+      | none => rw [hs, hs'] at this; cases this
+      | some c' => rfl
+  have h1 := hb.srcOk g hg hsome
+  have h2 := hb'.srcOk g' hg' hsome'
+  cases hs : g.src with
+  | none => rw [hs] at hsome; cases hsome
+  | some c =>
+    cases hs' : g'.src with
+    | none => rw [hs'] at hsome'; cases hsome'
+    | some c' =>
+      have hsem : compSem c = compSem c' := by
+        have := hc.2.1
+        rw [hs, hs'] at this
+        exact Option.some.inj this
+      unfold srcIx at h1 h2 ⊢
+      rw [hs] at h1 ⊢
+      rw [hs'] at h2 ⊢
+      simp only [Option.bind_some] at h1 h2 ⊢
+      cases hi : compIdx m.comps c with
+      | none => rw [hi] at h1; cases h1
+      | some i =>
+        cases hi' : compIdx m'.comps c' with
+        | none => rw [hi'] at h2; cases h2
+        | some i' =>
+          simp only [Option.getD_some]
+          rw [semState_getD_compIdx pop _ _ _ hi, semState_getD_compIdx pop _ _ _ hi', hsem]
+
+/-- sums over the first / second components of a list of pairs, filtered -/
+theorem sumL_pairs_filter {β : Type} (pairs : List (β × β)) (q q' : β → Bool) (F F' : β → α)
+    (h : ∀ p ∈ pairs, q p.1 = q' p.2 ∧ (q p.1 = true → F p.1 = F' p.2)) :
+    sumL (((pairs.map (·.1)).filter q).map F) = sumL (((pairs.map (·.2)).filter q').map F') := by
+  induction pairs with
+  | nil => rfl
+  | cons p ps ih =>
+    have hp := h p List.mem_cons_self
+    have ih' := ih (fun x hx => h x (List.mem_cons_of_mem _ hx))
+    simp only [List.map_cons, List.filter_cons]
+    rw [← hp.1]
+    by_cases hq : q p.1 = true
+    · simp only [hq, if_true, List.map_cons, sumL]
+      rw [hp.2 hq, ih']
+    · simp only [hq, Bool.false_eq_true, if_false]
+      exact ih'
+
+/-- the hypotheses shared by the lemmas below: two models with index tables whose compartments and
+flows correspond, in the same state `pop` -/
+structure RatesSetup (m m' : Model α) (b b' : Backend) (pairs : List (Flow α × Flow α)) : Prop where
+  hb : BackendFor m b
+  hb' : BackendFor m' b'
+  sourced : sourcedOk m = true
+  comps : (m.comps.map compSem).Perm (m'.comps.map compSem)
+  nodup : (m.comps.map compSem).Nodup
+  fst : pairs.map (·.1) = m.flows
+  snd : (pairs.map (·.2)).Perm m'.flows
+  ends : ∀ p ∈ pairs, EndsCorr p.1 p.2
+
+theorem RatesSetup.mem {m m' : Model α} {b b' : Backend} {pairs : List (Flow α × Flow α)}
+    (S : RatesSetup m m' b b' pairs) {p : Flow α × Flow α} (hp : p ∈ pairs) : p.1 ∈ m.flows ∧ p.2 ∈ m'.flows :=
+  ⟨by rw [← S.fst]; exact List.mem_map_of_mem hp, S.snd.mem_iff.1 (List.mem_map_of_mem hp)⟩
+
+theorem RatesSetup.srcSome {m m' : Model α} {b b' : Backend} {pairs : List (Flow α × Flow α)}
+    (S : RatesSetup m m' b b' pairs) {p : Flow α × Flow α} (hp : p ∈ pairs) (hk : isSourced p.1.kind = true) :
+    p.1.src.isSome = true := by
+  have := List.all_eq_true.1 S.sourced p.1 (S.mem hp).1
+  simpa [hk] using this
+
+theorem popOfFlow_corr {m m' : Model α} {b b' : Backend} {pairs : List (Flow α × Flow α)}
+    (S : RatesSetup m m' b b' pairs) (pop : String × (String → Option String) → α)
+    {p : Flow α × Flow α} (hp : p ∈ pairs) :
+    popOfFlow m (semState pop m.comps) p.1 = popOfFlow m' (semState pop m'.comps) p.2 := by
+  have hk := (S.ends p hp).1
+  unfold popOfFlow
+  rw [← hk]
+  by_cases h1 : isCrude p.1.kind = true
+  · simp only [h1, if_true]; exact sumL_semState pop _ _ S.comps
+  · by_cases h2 : isNonPop p.1.kind = true
+    · simp only [h1, h2, Bool.false_eq_true, if_false, if_true]
+    · simp only [h1, h2, Bool.false_eq_true, if_false]
+      have hs : isSourced p.1.kind = true := by
+        revert h1 h2; cases p.1.kind <;> simp [isCrude, isNonPop, isSourced]
+      exact srcPop_corr S.hb S.hb' pop (S.mem hp).1 (S.mem hp).2 (S.ends p hp) (S.srcSome hp hs)
+
+theorem deathsBy_corr {m m' : Model α} {b b' : Backend} {pairs : List (Flow α × Flow α)}
+    (S : RatesSetup m m' b b' pairs) (pop : String × (String → Option String) → α) (W W' : Flow α → α)
+    (hW : ∀ p ∈ pairs, W p.1 = W' p.2) :
+    deathsBy m W (semState pop m.comps) = deathsBy m' W' (semState pop m'.comps) := by
+  unfold deathsBy
+  rw [← S.fst, ← Invariance.sumL_perm ((S.snd.filter _).map _)]
+  apply sumL_pairs_filter
+  intro p hp
+  have hk := (S.ends p hp).1
+  refine ⟨by rw [hk], fun hd => ?_⟩
+  have hs : isSourced p.1.kind = true := by
+    revert hd; cases p.1.kind <;> simp [isDeath, isSourced]
+  rw [hW p hp, srcPop_corr S.hb S.hb' pop (S.mem hp).1 (S.mem hp).2 (S.ends p hp) (S.srcSome hp hs)]
+
+/-- **flow rates of corresponding flows agree**, given weights and infection multipliers that agree on
+corresponding flows -/
+theorem rateBy_corr {m m' : Model α} {b b' : Backend} {pairs : List (Flow α × Flow α)}
+    (S : RatesSetup m m' b b' pairs) (pop : String × (String → Option String) → α) (W W' M M' : Flow α → α)
+    (hW : ∀ p ∈ pairs, W p.1 = W' p.2) (hM : ∀ p ∈ pairs, isInfection p.1.kind = true → M p.1 = M' p.2)
+    {p : Flow α × Flow α} (hp : p ∈ pairs) :
+    rateBy m W (semState pop m.comps) M p.1 = rateBy m' W' (semState pop m'.comps) M' p.2 := by
+  have hk := (S.ends p hp).1
+  unfold rateBy
+  rw [← hk, hW p hp, popOfFlow_corr S pop hp, deathsBy_corr S pop W W' hW]
+  by_cases hi : isInfection p.1.kind = true
+  · simp only [hi, if_true, hM p hp hi]
+  · simp only [hi, Bool.false_eq_true, if_false]
+
+theorem inflow_map (m : Model α) (R : Flow α → α) (c : Nat) :
+    inflow m (m.flows.map R) c = sumL ((m.flows.filter (fun f => dstIx m f == some c)).map R) := by
+  unfold inflow
+  rw [Invariance.zip_map_self, List.filter_map, List.map_map]
+  rfl
+
+theorem outflow_map (m : Model α) (R : Flow α → α) (c : Nat) :
+    outflow m (m.flows.map R) c = sumL ((m.flows.filter (fun f => srcIx m f == some c)).map R) := by
+  unfold outflow
+  rw [Invariance.zip_map_self, List.filter_map, List.map_map]
+  rfl
+
+/-- positions `i` in `cs` and `i'` in `cs'` carry the same compartment (as name and strata lookup) -/
+def SamePos (cs cs' : List Comp) (i i' : Nat) : Prop :=
+  ∃ (hi : i < cs.length) (hi' : i' < cs'.length), compSem cs[i] = compSem cs'[i']
+
+theorem nodup_getElem_inj {β : Type} {l : List β} (h : l.Nodup) {i j : Nat} (hi : i < l.length) (hj : j < l.length)
+    (e : l[i] = l[j]) : i = j := by
+  rcases Nat.lt_trichotomy i j with hlt | heq | hgt
+  · exact absurd e (List.pairwise_iff_getElem.1 h i j hi hj hlt)
+  · exact heq
+  · exact absurd e.symm (List.pairwise_iff_getElem.1 h j i hj hi hgt)
+
+theorem nodup_sem_inj {cs : List Comp} (hnd : (cs.map compSem).Nodup) {i j : Nat} (hi : i < cs.length)
+    (hj : j < cs.length) (h : compSem cs[i] = compSem cs[j]) : i = j := by
+  have hi' : i < (cs.map compSem).length := by simpa using hi
+  have hj' : j < (cs.map compSem).length := by simpa using hj
+  have : (cs.map compSem)[i] = (cs.map compSem)[j] := by simpa using h
+  exact nodup_getElem_inj hnd hi' hj' this
+
+/-- an end of a flow sits at position `i` of one model iff the corresponding end sits at the
+corresponding position of the other model -/
+theorem endIx_corr {cs cs' : List Comp} (hnd : (cs.map compSem).Nodup) (hnd' : (cs'.map compSem).Nodup)
+    {e e' : Option Comp} (he : endSem e = endSem e') (hok : e.isSome = true → (e.bind (compIdx cs)).isSome = true)
+    (hok' : e'.isSome = true → (e'.bind (compIdx cs')).isSome = true) {i i' : Nat} (hpos : SamePos cs cs' i i') :
+    (e.bind (compIdx cs) == some i) = (e'.bind (compIdx cs') == some i') := by
+  obtain ⟨hi, hi', hsem⟩ := hpos
+  cases e with
+  | none =>
+    cases e' with
+    | none => rfl
+    | some c' => cases he
+  | some c =>
+    cases e' with
+    | none => cases he
+    | some c' =>
+      have hcc : compSem c = compSem c' := Option.some.inj he
+      have h1 := hok rfl
+      have h2 := hok' rfl
+      simp only [Option.bind_some] at h1 h2 ⊢
+      cases hj : compIdx cs c with
+      | none => rw [hj] at h1; cases h1
+      | some j =>
+        cases hj' : compIdx cs' c' with
+        | none => rw [hj'] at h2; cases h2
+        | some j' =>
+          obtain ⟨hjl, hjc⟩ := Invariance.compIdx_getElem cs c j hj
+          obtain ⟨hjl', hjc'⟩ := Invariance.compIdx_getElem cs' c' j' hj'
+          have e1 : (j = i) ↔ (j' = i') := by
+            constructor
+            · intro h; subst h
+              exact nodup_sem_inj hnd' hjl' hi' (by rw [hjc', ← hcc, ← hjc, hsem])
+            · intro h; subst h
+              exact nodup_sem_inj hnd hjl hi (by rw [hjc, hcc, ← hjc', hsem])
+          by_cases hji : j = i
+          · have := e1.1 hji; subst hji; subst this; simp
+          · have hne : ¬ j' = i' := fun h => hji (e1.2 h)
+            simp [hji, hne]
+
+theorem RatesSetup.nodup' {m m' : Model α} {b b' : Backend} {pairs : List (Flow α × Flow α)}
+    (S : RatesSetup m m' b b' pairs) : (m'.comps.map compSem).Nodup := S.comps.nodup_iff.1 S.nodup
+
+theorem inflow_corr {m m' : Model α} {b b' : Backend} {pairs : List (Flow α × Flow α)}
+    (S : RatesSetup m m' b b' pairs) (R R' : Flow α → α) (hR : ∀ p ∈ pairs, R p.1 = R' p.2)
+    {i i' : Nat} (hpos : SamePos m.comps m'.comps i i') :
+    inflow m (m.flows.map R) i = inflow m' (m'.flows.map R') i' := by
+  rw [inflow_map, inflow_map, ← S.fst, ← Invariance.sumL_perm ((S.snd.filter _).map _)]
+  apply sumL_pairs_filter
+  intro p hp
+  refine ⟨?_, fun _ => hR p hp⟩
+  exact endIx_corr S.nodup S.nodup' (S.ends p hp).2.2 (S.hb.dstOk p.1 (S.mem hp).1) (S.hb'.dstOk p.2 (S.mem hp).2) hpos
+
+theorem outflow_corr {m m' : Model α} {b b' : Backend} {pairs : List (Flow α × Flow α)}
+    (S : RatesSetup m m' b b' pairs) (R R' : Flow α → α) (hR : ∀ p ∈ pairs, R p.1 = R' p.2)
+    {i i' : Nat} (hpos : SamePos m.comps m'.comps i i') :
+    outflow m (m.flows.map R) i = outflow m' (m'.flows.map R') i' := by
+  rw [outflow_map, outflow_map, ← S.fst, ← Invariance.sumL_perm ((S.snd.filter _).map _)]
+  apply sumL_pairs_filter
+  intro p hp
+  refine ⟨?_, fun _ => hR p hp⟩
+  exact endIx_corr S.nodup S.nodup' (S.ends p hp).2.1 (S.hb.srcOk p.1 (S.mem hp).1) (S.hb'.srcOk p.2 (S.mem hp).2) hpos
+
+/-- **compartment rates at corresponding positions agree** -/
+theorem compRates_corr {m m' : Model α} {b b' : Backend} {pairs : List (Flow α × Flow α)}
+    (S : RatesSetup m m' b b' pairs) (pop : String × (String → Option String) → α) (W W' M M' : Flow α → α)
+    (hW : ∀ p ∈ pairs, W p.1 = W' p.2) (hM : ∀ p ∈ pairs, isInfection p.1.kind = true → M p.1 = M' p.2)
+    {i i' : Nat} (hpos : SamePos m.comps m'.comps i i') :
+    (compRates b (flowRates b (m.flows.map W) (semState pop m.comps)
+        ((m.flows.filter (fun f => isInfection f.kind)).map M))).getD i 0
+      = (compRates b' (flowRates b' (m'.flows.map W') (semState pop m'.comps)
+        ((m'.flows.filter (fun f => isInfection f.kind)).map M'))).getD i' 0 := by
+  obtain ⟨hi, hi', _⟩ := id hpos
+  rw [Invariance.flowRates_eq_map S.hb, Invariance.flowRates_eq_map S.hb',
+    compRates_getD_spec S.hb _ i hi, compRates_getD_spec S.hb' _ i' hi',
+    inflow_corr S _ _ (fun p hp => rateBy_corr S pop W W' M M' hW hM hp) hpos,
+    outflow_corr S _ _ (fun p hp => rateBy_corr S pop W W' M M' hW hM hp) hpos]
+
+end ratesCorr
 
 end Summer.Proofs.StratComm
